@@ -104,6 +104,12 @@ def rule_units(ctx):
         tu, tf = [norm(e) for e in g_.target.elts]
         m_ = st_.targets[0].id
         rets_ = [r_ for r_ in walk_no_nested(f.node) if isinstance(r_, ast.Return) and r_.value is not None and m_ in norm(r_.value)]
+        if not rets_:
+            # the product bound to a name that is returned (a worker's result inlined into the wrapper)
+            prod_ = [a_ for a_ in walk_no_nested(f.node) if isinstance(a_, ast.Assign) and isinstance(a_.targets[0], ast.Name) and a_ is not st_
+                     and any(isinstance(n_, ast.Name) and n_.id == m_ for n_ in ast.walk(a_.value))]
+            if len(prod_) == 1 and any(isinstance(r_, ast.Return) and r_.value is not None and norm(r_.value) == prod_[0].targets[0].id for r_ in walk_no_nested(f.node)):
+                rets_ = [ast.copy_location(ast.Return(value=prod_[0].value), prod_[0])]
         fact = "%s = %s; return %s" % (m_, norm(c_), [norm(r_.value) for r_ in rets_])
         ok = norm(c_.elt) == tf and [norm(i_) for i_ in g_.ifs] == ["%s in %s" % (un, tu)] and len(rets_) == 1 \
             and norm(rets_[0].value) in ("%s * %s" % (ln, picked % m_), "%s * %s" % (picked % m_, ln))
@@ -300,6 +306,17 @@ def rule_deshuffle(ctx):
             g_perm = sorted(("" if p_ else "not ") + str(norm(t_)) for t_, p_ in guard_chain(st, implicit=True))
             if g_perm == ["self.%s is not None" % attr_] and stores_ and all(flow._order(a_) < flow._order(st) for a_ in stores_):
                 stores_ = []        # permuted exactly when a permutation was stored: the test is on the stored value itself
+            expanded_ = []
+            for a_ in stores_:
+                # self.<sigma> = <local>: what counts is where that local gets a permutation (it is None elsewhere)
+                if isinstance(a_.value, ast.Name) and a_.value.id != st.targets[0].id:
+                    ds_ = [d_ for d_ in flow.defs(a_.value.id, a_) if d_ != "param" and isinstance(d_, ast.Assign)]
+                    real_ = [d_ for d_ in ds_ if not (isinstance(d_.value, ast.Constant) and d_.value.value is None)]
+                    if ds_ and len(real_) < len(ds_) and real_:
+                        expanded_.extend(real_)
+                        continue
+                expanded_.append(a_)
+            stores_ = expanded_
             for a_ in stores_:
                 g_st = sorted(("" if p_ else "not ") + str(norm(t_)) for t_, p_ in guard_chain(a_, implicit=True))
                 if g_st != g_perm:
